@@ -103,6 +103,7 @@ pub struct Margins {
 }
 
 /// A container for savepoint, created on :data:`~pyte.escape.DECSC`.
+#[cfg_attr(memterm_verif, derive(Clone))]
 pub struct Savepoint {
     pub cursor: Cursor,
     pub g0_charset: [char; 256],
@@ -127,6 +128,7 @@ pub enum Charset {
     G1,
 }
 
+#[cfg_attr(memterm_verif, derive(Clone))]
 pub struct Screen {
     pub savepoints: Vec<Savepoint>,
     pub columns: u32,
